@@ -96,6 +96,43 @@ def one(job):
     return dict(job=kind + ':' + cfg.key(), rc=r.returncode, protocol_lines=nlines, lines=lines_cnt, fns={'%d-%d' % k: v for k, v in fns.items()})
 
 
+def consteval_job(d):
+    """which of the `is_constant_evaluated ()` branches do the generated constexpr programs of C08 reach?  gcov cannot see a
+    constant evaluation, so the same programs are RUN against a copy of the header in which `std::is_constant_evaluated ()`
+    reads `true` (same line numbers): the branches they execute there are the ones the compilers' evaluators execute for them."""
+    import random
+    import c08
+    os.makedirs(os.path.join(d, 'inc', 'gch'), exist_ok=True)
+    src = open(HPP).read()
+    forced = src.replace('std::is_constant_evaluated ()', 'true')
+    open(os.path.join(d, 'inc', 'gch', 'small_vector.hpp'), 'w').write(forced)
+    lines_cnt = {}
+    nprog = 0
+    for (N, M) in ((2, 3), (0, 4)):
+        rng = random.Random(1000003 + 8)
+        progs = [c08.gen_program(rng, N, M, 12) for _ in range(12)] + c08.directed_programs(N, M)
+        nprog += len(progs)
+        sub = os.path.join(d, 'p%d_%d' % (N, M))
+        os.makedirs(sub, exist_ok=True)
+        body = [c08.PRELUDE] + [c08.cpp_of(ops, N, M, i) for i, ops in enumerate(progs)] + ['int main () { unsigned long long s = 0;']
+        body += ['  s += prog%d<int> () + prog%d<Lit> ();' % (i, i) for i in range(len(progs))]
+        body += ['  std::printf ("%llu\\n", s); return 0; }']
+        open(os.path.join(sub, 'ce.cpp'), 'w').write('\n'.join(body))
+        r = subprocess.run(['g++', '-std=c++20', '-O0', '--coverage', '-I' + os.path.join(d, 'inc'), 'ce.cpp', '-o', 'prog'], cwd=sub, capture_output=True, text=True)
+        if r.returncode != 0:
+            return dict(job='consteval-forced', error=r.stderr[-1500:])
+        r = subprocess.run([os.path.join(sub, 'prog')], cwd=sub, capture_output=True, text=True, timeout=600)
+        gcda = [x for x in os.listdir(sub) if x.endswith('.gcda')]
+        if not gcda:
+            return dict(job='consteval-forced', error='no .gcda (rc=%d) %s' % (r.returncode, r.stderr[-300:]))
+        g = subprocess.run(['gcov', '-j', '-t', '-o', sub, os.path.join(sub, gcda[0])], cwd=sub, capture_output=True, text=True)
+        for f in json.loads(g.stdout)['files']:
+            if f['file'].endswith('gch/small_vector.hpp'):
+                for l in f['lines']:
+                    lines_cnt[l['line_number']] = lines_cnt.get(l['line_number'], 0) + l['count']
+    return dict(job='consteval-forced', programs=nprog, lines=lines_cnt)
+
+
 def main():
     out = os.path.join(vlib.VERIF, 'out', 'header_coverage.json')
     every = 7
@@ -109,7 +146,9 @@ def main():
         jobs = [('harness', c, os.path.join(scratch, 'h%d' % i), every) for i, c in enumerate(CONFIGS)]
         jobs += [('wrappers', vlib.Config(std=s), os.path.join(scratch, 'w' + s.replace('+', 'p')), every) for s in ('c++17', 'c++20')]
         with cf.ProcessPoolExecutor(max_workers=min(len(jobs), vlib.NCPU)) as ex:
+            fce = ex.submit(consteval_job, os.path.join(scratch, 'ce'))
             res = list(ex.map(one, jobs))
+            ce = fce.result()
     finally:
         shutil.rmtree(scratch, ignore_errors=True)
     errors = [r for r in res if 'error' in r]
@@ -135,7 +174,12 @@ def main():
         bodies[k] = dict(line=ln, status=st, code_lines=len(code), executed_lines=len(ran))
     tot = len(merged)
     ex = sum(1 for v in merged.values() if v > 0)
+    unexec = sorted(k for k, v in merged.items() if v == 0)
+    ce_lines = ce.get('lines', {}) if isinstance(ce, dict) else {}
+    ce_reached = sorted(l for l in unexec if ce_lines.get(l, 0) > 0)
     summary = dict(
+        consteval_only_lines=len(unexec), consteval_only_lines_reached_by_c08_programs=len(ce_reached),
+        consteval_only_lines_not_reached=[l for l in unexec if l not in ce_reached], consteval_programs=ce.get('programs'), consteval_error=ce.get('error'),
         header=HPP, header_sha256=vlib.file_sha([HPP]) if hasattr(vlib, 'file_sha') else None,
         runs=[dict(job=r['job'], protocol_lines=r.get('protocol_lines'), rc=r.get('rc'), error=r.get('error')) for r in res],
         every_kth_case=every,
@@ -151,6 +195,8 @@ def main():
     print('code lines instantiated by the D-tie programs: %d, executed: %d (%.1f%%)' % (tot, ex, 100.0 * ex / max(tot, 1)))
     print('function bodies (of %d the translator knows): executed %d, instantiated only %d, absent %d' % (
         len(bodies), summary['bodies_executed'], len(summary['bodies_instantiated_only']), len(summary['bodies_absent'])))
+    print('lines no run-time tie program executes: %d; of these reached by the C08 programs (is_constant_evaluated forced true): %d%s' % (
+        len(unexec), len(ce_reached), (' — ERROR ' + str(ce.get('error'))[:300]) if ce.get('error') else ''))
     for e in errors:
         print('ERROR', e['job'], e['error'][:300])
     return 1 if errors else 0
